@@ -218,7 +218,10 @@ func runC13(r *core.Run) {
 	backend := r.Intn(3, "backend")
 	switch backend {
 	case 0, 1:
-		view = simView{seams.NewSimVCS(r, "/release")}
+		v := seams.NewSimVCS(r, "/release")
+		// the second in-memory back end keeps the slices it is handed rather than copies
+		v.Retain = backend == 1
+		view = simView{v}
 	default:
 		d := filepath.Join(scratch, "repo")
 		os.MkdirAll(d, 0o755)
